@@ -110,7 +110,7 @@ OpWidth(mn, ops) ==
 ImmWidth(mn, ops) == IF mn \in ImmFollowsOperand THEN OpWidth(mn, ops) ELSE 0
 \* ---------------------------------------------------------------- presentation record
 Pres0 == [syn |-> "intel", rc |-> "lower", kc |-> "upper", sp |-> "canon", nb |-> "dec", isg |-> FALSE, dsg |-> FALSE,
-          ord |-> "bid", dout |-> FALSE, pct |-> FALSE, st0 |-> "paren"]
+          ord |-> "bid", dout |-> FALSE, pct |-> FALSE, st0 |-> "paren", dsp |-> "one"]
 PresAtt0 == [Pres0 EXCEPT !.syn = "att", !.pct = TRUE]
 Style(p) == [rc |-> p.rc, kc |-> p.kc, sp |-> p.sp]
 \* ---------------------------------------------------------------- layout: terms of a memory operand
@@ -123,7 +123,13 @@ NeedDisp(o) == ~IsZero(o.d) \/ (o.b = -1 /\ o.i = -1 /\ o.sym = "")
 MemB(o) == IF o.b # -1 THEN <<RegTerm(R32[o.b + 1], 0)>> ELSE <<>>
 MemI(o) == IF o.i # -1 THEN <<RegTerm(R32[o.i + 1], IF o.sc = 1 /\ o.b # -1 THEN 0 ELSE o.sc)>> ELSE <<>>
 MemS(o) == IF o.sym # "" THEN <<SymTerm(o.sym)>> ELSE <<>>
-MemD(o, p) == IF NeedDisp(o) THEN <<NumTerm(DispNum(o, p))>> ELSE <<>>
+\* the displacement as one number, or as constant arithmetic:  d  =  (d+4) - 4  ("pm")  =  -4 + (d+4)  ("mp")
+MemD(o, p) == IF ~NeedDisp(o) THEN <<>>
+              ELSE IF p.dsp = "one" THEN <<NumTerm(DispNum(o, p))>>
+              ELSE LET hi == Add(o.d, FromNat(4, 32), 32)
+                       a == NumTerm(CanonNum(hi, Msb(hi, 32) = 1, p.nb))
+                       b == NumTerm(MkNum(TRUE, FromNat(4, 32), p.nb))
+                   IN IF p.dsp = "pm" THEN <<a, b>> ELSE <<b, a>>
 \* index-first is a pure re-ordering only when the index carries an explicit scale
 RolesFixed(o) == o.b # -1 /\ o.i # -1 /\ ~(o.sc = 1)
 RegTerms(o, p) == IF p.ord = "ibd" /\ RolesFixed(o) THEN MemI(o) \o MemB(o) ELSE MemB(o) \o MemI(o)
